@@ -104,6 +104,7 @@ def vecOp (m : MS) (ar : State) (id item : Nat) (v : AsmjitVerif.Vector.Vec) (w 
     | some (ar', v', e) => fin ar' v' (errV e)
   let a := nat (w.getD 3 "0") % u64
   let b := nat (w.getD 4 "0")
+  let u32 := if item = 1 then 256 else u32     -- value width of the item type
   match w.getD 2 "" with
   | "append" => finR (AsmjitVerif.Vector.insert ar v v.size (a % u32) item)
   | "prepend" => finR (AsmjitVerif.Vector.insert ar v 0 (a % u32) item)
@@ -356,6 +357,8 @@ def strOp (m : MS) (id : Nat) (s : Str.Str) (w : List String) : MS × String :=
   | "append_int" => finE (Str.opNumber s false (a % u64) (b % u32) (x % u64) ((y % u32) ||| Str.kSigned))
   | "append_hex" => hexArg fun bs => finE (Str.opHex s false bs (b % 256))
   | "assign_hex" => hexArg fun bs => finE (Str.opHex s true bs (b % 256))
+  | "append_format" => hexArg fun bs => if bs.contains 0 then (m, "bad-op") else finE (Str.opFormat s false bs)
+  | "assign_format" => hexArg fun bs => if bs.contains 0 then (m, "bad-op") else finE (Str.opFormat s true bs)
   | "pad_end" => finE (Str.padEnd s (a % u64) (b % 256))
   | "truncate" => finO (Str.truncate s (a % u64))
   | "clear" => finO (Str.clear s)
@@ -387,7 +390,7 @@ def modelStep (m : MS) (line : String) : MS × String :=
       | _ => let s : Str.Str := {}; ({ m with strs := alSet m.strs id s }, "ok" ++ strState s)
     else if m.arena.isNone then (m, "bad-op")
     else match c, rest with
-      | "V", [it] => if (nat it ≠ 4 ∧ nat it ≠ 12) ∨ (alGet m.vecs id).isSome then (m, "bad-op")
+      | "V", [it] => if (nat it ≠ 4 ∧ nat it ≠ 12 ∧ nat it ≠ 1) ∨ (alGet m.vecs id).isSome then (m, "bad-op")
                      else ({ m with vecs := alSet m.vecs id (nat it, {}) }, "ok")
       | "H", _ => if (alGet m.hashes id).isSome then (m, "bad-op") else ({ m with hashes := alSet m.hashes id {} }, "ok")
       | "T", _ => if (alGet m.trees id).isSome then (m, "bad-op") else ({ m with trees := alSet m.trees id {} }, "ok")
